@@ -9,6 +9,11 @@ CLAIMED = {
    note='Trusted: Coq kernel + vm_compute; translator tools/gen_enums.py with macro definitions pinned by hash; Model/Enums.v interpreter (hand-written, tied by exhaustive correspondence); ExtrOcamlBasic extraction and OCaml/Rust printers. No axioms.',
    technique='Coq proof: generic soundness of a boolean table checker + vm_compute on tables generated from source; exhaustive differential correspondence',
    design='5/C18'),
+ 'C12': dict(
+   text='Machine-checked proof (Coq 8.16): the merge table generated from AddpathDirection::merge equals the RFC 7911 rule on all 9 pairs; for every pair of capability lists (any number/placement of ADD-PATH capabilities, each family at most once locally) and every family the derived configuration holds exactly dir_spec(local, peer) - receive iff local recv/both and peer send/both, send symmetrically - hence swapping the OPENs swaps send/receive; four-octet iff both carry capability 65 (BMP: per-peer header bit); the BMP per-peer-header derivation and the live-session derivation hold the same directions. No bound on the number of families or capabilities.',
+   note='Trusted: Coq kernel + vm_compute on the 9-pair table; translator tools/gen_merge.py; hand-written Model/Negotiate.v and Model/Open.v tied by a differential run (all 16 combinations per family x placements x four-octet x legacy through the helper and both BMP derivations). Live-session clause: proved on the model, exercised through the C08 hooks.',
+   technique='Coq proof by induction over capability/family lists + finite table check on generated merge arms; differential correspondence',
+   design='5/C12'),
 }
 
 PENDING = {}
